@@ -503,7 +503,7 @@ def dimacs_sign(prog):
                     nums.append(x)
     errs = []
     if not signs:
-        errs.append("no sign text chosen by the literal's polarity")
+        errs.append("?no sign text chosen by the literal's polarity")
     else:
         arms = {("F" if lab == "0" else "T"): strip(v)[2].strip('"') for lab, v in signs[0][2]}
         if arms.get("F") != "-" or arms.get("T", "") not in ("", "+"):
